@@ -572,7 +572,7 @@ def _replay_bursts_v4(f):
 # every command the dispatcher of the tree registers (read from its dispatch tree, not a list of mine), each followed by a
 # fixed list of arguments, then a sentinel command: exactly one terminal reply per command, in order, whatever the command
 # and its arguments are; a command answered `error` has changed no Adj-RIB-Out
-ARGS = ['', 'x', '-1', '*', '127.0.0.1', '127.0.0.9', 'in', 'out', 'extensive', 'json', 'summary', 'configuration', 'ipv4 unicast', 'adj-rib out', 'adj-rib in', '[', '{ }', '"', '\\', '%s', '99999999999999999999999', 'route', 'route 10.9.0.0/24', 'route 10.9.0.0/24 next-hop 192.0.2.1', 'eor', 'eor ipv4 unicast', 'route-refresh ipv4 unicast', 'watchdog w', 'operational asm afi ipv4 safi unicast advisory "x"', 'flow route { match { destination 10.0.0.0/24; } then { discard; } }', 'vpls rd 1:1 endpoint 1 base 100 offset 1 size 8 next-hop 192.0.2.1', 'attributes next-hop 192.0.2.1 nlri 10.9.1.0/24', 'ipv4 unicast 10.9.2.0/24 next-hop 192.0.2.1', 'ipv6 unicast 2001:db8::/32 next-hop 2001:db8::1']
+ARGS = ['list', 'ipv4 unicast list', 'add 10.9.3.0/24 next-hop 192.0.2.1', 'remove 10.9.3.0/24 next-hop 192.0.2.1', 'remove index 00', 'out', 'in', '', 'x', '-1', '*', '127.0.0.1', '127.0.0.9', 'in', 'out', 'extensive', 'json', 'summary', 'configuration', 'ipv4 unicast', 'adj-rib out', 'adj-rib in', '[', '{ }', '"', '\\', '%s', '99999999999999999999999', 'route', 'route 10.9.0.0/24', 'route 10.9.0.0/24 next-hop 192.0.2.1', 'eor', 'eor ipv4 unicast', 'route-refresh ipv4 unicast', 'watchdog w', 'operational asm afi ipv4 safi unicast advisory "x"', 'flow route { match { destination 10.0.0.0/24; } then { discard; } }', 'vpls rd 1:1 endpoint 1 base 100 offset 1 size 8 next-hop 192.0.2.1', 'attributes next-hop 192.0.2.1 nlri 10.9.1.0/24', 'ipv4 unicast 10.9.2.0/24 next-hop 192.0.2.1', 'ipv6 unicast 2001:db8::/32 next-hop 2001:db8::1']
 # commands which end or restart the daemon, or change how (whether) commands are acknowledged: one reply per command is not
 # what they promise
 NOT_DRIVEN = {'daemon shutdown', 'daemon reload', 'daemon restart', 'system crash', 'session ack disable', 'session ack silence', 'session bye', 'session reset', 'session sync enable'}
@@ -739,3 +739,61 @@ def partly_applicable(tier, seed):
 @replayer('C14', 'partly-applicable-commands')
 def _replay_partial(f):
     return _run(_partial_case(f['input']['neighbors'], f['input']['commands'][0])) is None
+
+
+# ---------------------------------------------------------------------------------------------------------------------
+# "a command carrying a neighbor selector affects only the selected neighbors": the watchdog commands, whose effect is on
+# routes the configuration holds back
+WATCHDOG_CONF = TWO_NEIGHBORS.replace('api { processes [ p ]; }', 'api { processes [ p ]; }\n    static { route 10.5.0.0/24 next-hop 192.0.2.1 watchdog w withdraw; }')
+
+
+async def _watchdog_case(line, want):
+    global TWO_NEIGHBORS
+    saved = TWO_NEIGHBORS
+    TWO_NEIGHBORS = WATCHDOG_CONF
+    try:
+        w = _Api()
+    finally:
+        TWO_NEIGHBORS = saved
+    inp = {'commands': [line], 'configuration': 'both neighbors hold 10.5.0.0/24 back under watchdog w'}
+    try:
+        w.deliver((line + '\n').encode())
+        for _ in range(40):
+            await w.iterate()
+            if w.idle():
+                break
+        got = [t for t in (terminal(l) for l in w.replies()) if t]
+        if got != ['done']:
+            return {'what': f'replies {got} to a watchdog command', 'input': inp}
+        have = {nb: {p for s, p in v if s == '+'} for nb, v in w.ribs().items()}
+        for nb in (N1, N2):
+            if have.get(nb, set()) != want.get(nb, set()):
+                return {'what': f'neighbor {nb} announces {sorted(have.get(nb, set()))} after `{line}`, expected {sorted(want.get(nb, set()))}: the selector was not honoured', 'input': inp}
+        return None
+    finally:
+        w.close()
+
+
+WATCHDOG_LINES = [
+    ('peer 127.0.0.1 announce watchdog w', {N1: {'10.5.0.0/24'}}),
+    ('peer 127.0.0.2 announce watchdog w', {N2: {'10.5.0.0/24'}}),
+    ('peer * announce watchdog w', {N1: {'10.5.0.0/24'}, N2: {'10.5.0.0/24'}}),
+    ('peer * announce watchdog other', {}),
+]
+
+
+@bounded('C14', 'watchdog-selector')
+def watchdog_selector(tier, seed):
+    fails = []
+    for line, want in WATCHDOG_LINES:
+        with _quiet():
+            f = _run(_watchdog_case(line, want))
+        if f:
+            fails.append(f)
+    return {'evaluations': len(WATCHDOG_LINES), 'distinct_nontrivial': len(WATCHDOG_LINES), 'exhaustive': True, 'bound': 'announce watchdog with a selector naming one neighbor, the other, both, and an unknown watchdog name; two neighbors each holding one route back under the watchdog', 'rule': 'one case = one command', 'samples': [{'commands': [WATCHDOG_LINES[0][0]]}], 'failures': fails}
+
+
+@replayer('C14', 'watchdog-selector')
+def _replay_watchdog_sel(f):
+    line = f['input']['commands'][0]
+    return _run(_watchdog_case(line, dict(WATCHDOG_LINES)[line])) is None
